@@ -4,7 +4,7 @@ from . import sched_run
 LEAN_TARGETS = ['DawgieVerif.Model.SchedIO']
 TRUSTED = sched_run.TRUSTED
 MANIFEST = dict(
-    text='Lean theorems over Model/Sched.lean for a failure/invalid reply in any state reached by any history: withdrawn (target gone from the pending work of the failed algorithm and every node the recursive purge visits), pending_frame (other targets and unrelated algorithms unchanged; nobody gains pending work), executing_frame (executing work of every other algorithm untouched), queue_not_grown, outcome_recorded (history = old history ++ [entry]), executing_unit_is_queued. Tied by correspondence with the real Hand._res/complete/purge; the monitor compares real node sets before/after each non-success reply against descriptor-level dependents.',
+    text='Lean theorems over Model/Sched.lean for a failure/invalid reply in any state reached by any history: withdrawn (target gone from the pending work of the failed algorithm and every node the recursive purge visits), pending_frame (other targets and unrelated algorithms unchanged; nobody gains pending work), executing_frame (executing work of every other algorithm untouched), queue_not_grown, outcome_recorded (history = old history ++ [entry]), executing_unit_is_queued. Tied by correspondence with the real Hand._res/complete/purge; the monitor compares real node sets before/after each non-success reply against descriptor-level dependents. End to end (harness/c05_e2e.py): the algorithm ends with RuntimeError / NoValidInput/OutputDataError / sys.exit() / KeyboardInterrupt inside the REAL pl.worker.cluster.execute (in-memory sockets), its answer goes through the real Hand.dataReceived, and the same clauses plus the recorded outcome are checked on the real scheduler (tasks and analyses).',
     note='g.desc x (what _purge walks) is read from the real graph; that it is the set of transitive dependents is C09. chronicle.append is recorded by a fake (file format is C18). Trusted base as C01.',
     technique='Lean 4 proof: frame theorems by case analysis + invariant + differential correspondence',
     design='7/C05',
@@ -14,7 +14,15 @@ WANT = {'C05'}
 
 def run(ctx, res):
     sched_run.run_all(ctx, res, WANT, 'C05')
+    # end to end: the way an algorithm ends -> the real worker's answer (pl.worker.cluster.execute) -> the real
+    # farm hand -> schedule.complete / purge, monitored against the descriptor-level dependents
+    from . import c05_e2e
+    c05_e2e.run(ctx, res)
 
 
 def replay(rep, res):
-    sched_run.replay_case(rep, res, WANT)
+    if str(rep.get('sig', '')).startswith('C05:e2e'):
+        from . import c05_e2e
+        c05_e2e.replay(rep, res)
+    else:
+        sched_run.replay_case(rep, res, WANT)
